@@ -109,6 +109,8 @@ pub struct Audit {
     pub consumed: usize,
     /// end offset of the question section and of every record, in order
     pub record_ends: Vec<usize>,
+    /// the longest chain of pointers followed to read one name
+    pub max_hops: usize,
 }
 
 pub fn name_from_str(s: &str) -> Name {
@@ -222,6 +224,7 @@ impl<'a> Dec<'a> {
                     end = Some(p + 2);
                 }
                 jumps += 1;
+                self.audit.max_hops = self.audit.max_hops.max(jumps);
                 if jumps > 200 {
                     return Err("compression loop".into());
                 }
